@@ -9,7 +9,9 @@
      shared/entity_container.py EntityContainer.copy_from_extent     -> copy_from_extent (= Geometry.masked_copy with the mask)
      data/data.py               Data.mask_by_extent (VERTEX / CELL of an object without centroids) -> data_mask
      objects/grid2d.py          Grid2D.copy_from_extent, index part  -> grid_select (u_ind / v_ind = any over columns / rows,
-                                                                         kron, argmax, counts; inverse = False branch)
+                                                                         kron, argmax, counts; inverse = False branch),
+                                                                         grid_copy_values (values picked, then blanked by
+                                                                         Data.mask_by_extent on the new grid's centroids)
 
    Coordinates are integers (Z): the driver uses lattice coordinates for which the float comparisons are exact.
    An extent is the list of its columns [(lo_x, hi_x); (lo_y, hi_y)] or with a third (lo_z, hi_z): `zip` over the
@@ -146,13 +148,28 @@ Fixpoint argmax_b (l : list bool) : nat :=
 
 Record subgrid := { sg_u0 : nat; sg_v0 : nat; sg_nu : nat; sg_nv : nat; sg_mask : list bool }.
 
-Definition grid_select (nu : nat) (sel : list (list bool)) : option subgrid :=
-  let u_ind := col_any sel nu in
-  let v_ind := row_any sel in
+(* repaired code (fixes/C13-grid-subgrid-gap.patch): every index between the first and the last selected one is selected too *)
+Fixpoint fill_after (l : list bool) : list bool :=
+  match l with [] => [] | b :: r => (b || any_b r) :: fill_after r end.
+Fixpoint fill_span (l : list bool) : list bool :=
+  match l with [] => [] | b :: r => if b then true :: fill_after r else false :: fill_span r end.
+
+(* [fill] = does the checked tree contain that repair (read off the source on every run) *)
+Definition grid_select (fill : bool) (nu : nat) (sel : list (list bool)) : option subgrid :=
+  let u_ind := if fill then fill_span (col_any sel nu) else col_any sel nu in
+  let v_ind := if fill then fill_span (row_any sel) else row_any sel in
   let indices := kron v_ind u_ind in
   if any_b indices
   then Some {| sg_u0 := argmax_b u_ind; sg_v0 := argmax_b v_ind; sg_nu := count u_ind; sg_nv := count v_ind; sg_mask := indices |}
   else None.
+
+(* values of the copy: those of the cells picked by the mask, then blanked where the *new* grid's cell centre is outside the
+   box; new cell (a, b) sits on the centre of source cell (u0 + a, v0 + b) *)
+Definition grid_copy_values (sel : list (list bool)) (g : subgrid) (v : vals) : vals :=
+  let picked := select (sg_mask g) v in
+  let inbox := concat (map (fun b => map (fun a => nth (sg_u0 g + a) (nth (sg_v0 g + b) sel []) false) (seq 0 (sg_nu g)))
+                           (seq 0 (sg_nv g))) in
+  fill_masked None inbox picked.
 
 (* ------------------------------------------------------------------ comparison helpers for the correspondence files *)
 Definition omask_eqb : option (list bool) -> option (list bool) -> bool := option_eqb (list_eqb Bool.eqb).
